@@ -18,6 +18,9 @@ QUICK_MODULES = ["testdata/condition.emb", "testdata/bits.emb", "testdata/dynami
 
 
 def classify(c):
+    if c.get("monotonicity") and (c["kind"] in ("count", "elem_ok", "elem_read") or c.get("field_kind") == "array"):
+        # one class of call sites (GenericArrayView over clamped storage), not one entry per array field
+        return {"class": "array-view-over-truncated-storage", "kind": c["kind"]}
     return {"module": c["module"], "struct": c["struct"], "kind": c["kind"], "path": ".".join(c["path"])}
 
 
@@ -54,6 +57,17 @@ def replay(c):
         exe = os.path.join(d, "replay")
         cxx.compile_native(main, exe, includes=[d])
         pvals = list(c["params"].values())
+        if c.get("monotonicity"):
+            outs = []
+            for nn in (c["prefix_n"], c["n"]):
+                stdin = "%d\n%s\n%s\n" % (nn, " ".join("%x" % b for b in c["bytes"][:nn]),
+                                           " ".join(str(v - (1 << 64) if v >> 63 else v) for v in pvals))
+                rc, out, err = cxx.run_native(exe, stdin)
+                if rc != 0:
+                    return True, "native run crashed: %s" % (err or out)[-300:]
+                outs.append(int(out.split("result")[1].split()[0]))
+            return outs[0] != outs[1] and outs[0] != 0, "%s reports %d on the first %d bytes and %d once %d bytes are present" % (
+                c["fn"], outs[0], c["prefix_n"], outs[1], c["n"])
         stdin = "%d\n%s\n%s\n" % (c["n"], " ".join("%x" % b for b in c["bytes"]),
                                    " ".join(str(v - (1 << 64) if v >> 63 else v) for v in pvals))
         try:
